@@ -21,7 +21,7 @@ use nexosim::simulation::{
 };
 use nexosim::time::{Clock, MonotonicTime, SyncStatus};
 
-use crate::explore;
+use super::explore;
 
 pub const BASE_SECS: i64 = 1000;
 pub const BASE_NANOS: u32 = 999_999_998;
